@@ -374,7 +374,7 @@ Lemma p_we_ep_poll s desc : p_inv c true s -> p_we s -> p_we (p_ep_poll c s desc
 Proof.
   intros I W. pose proof (p_wfs_ep_poll c s desc (conj (proj1 W) (proj1 (proj1 (proj2 W))))) as [_ WP].
   unfold p_ep_poll in *.
-  destruct (p_ep_ready c s (if desc then rev (seq 0 (length c)) else seq 0 (length c))); [exact W|].
+  destruct (p_ep_batch c s (if desc then rev (seq 0 (length c)) else seq 0 (length c))); [exact W|].
   assert (X : forall l0 s0, p_inv c true s0 -> p_we s0 -> p_we (fold_left (p_ep_check c) l0 s0)).
   { induction l0; simpl; intros; auto. apply IHl0. apply p_inv_ep_check; auto. apply p_we_ep_check; auto. }
   specialize (X (p :: l) s I W). set (sf := fold_left (p_ep_check c) (p :: l) s) in *. clearbody sf.
@@ -416,16 +416,16 @@ End RegE.
 
 (* ---------- the premise of c16_close_reported from the registration history ---------- *)
 Theorem p_close_reported_history c ops d desc be :
-  p_no_target c d -> d < length c -> pc_conn (p_get c d) = true -> pc_doc (p_get c d) = false ->
+  length c <= p_max_events -> p_no_target c d -> d < length c -> pc_conn (p_get c d) = true -> pc_doc (p_get c d) = false ->
   let s := p_run be c ops in
   st_regr s d = true -> st_closed s d = true -> st_pend s d = [] -> st_onclose s d = true -> st_del s d = false ->
   p_closed_logged d (p_step c s (POPoll desc)).
 Proof.
-  intros G L CN DC s RG CL PD ON DL. destruct be.
+  intros LM G L CN DC s RG CL PD ON DL. destruct be.
   - destruct (p_we_run c ops) as (B & (W & T & D) & K). fold s in B, W, T, K.
     destruct (K d CN DC RG ON) as (id & M & ER).
     destruct (T d id M) as [T1 _]. specialize (T1 ER). rewrite CN in T1. destruct T1 as [T1 T2].
-    apply (p_ep_close_reported c ops d id desc G L). constructor; auto. repeat split; auto.
+    apply (p_ep_close_reported c ops d id desc LM G L). constructor; auto. repeat split; auto.
   - destruct (p_ws_run c ops) as [B W]. fold s in B, W.
     apply (p_sel_close_reported c d s desc G L). constructor; auto.
 Qed.
